@@ -1,5 +1,6 @@
 """C19 — values of every type compare, hash and print coherently."""
 import json
+import os
 import math
 import struct
 
@@ -261,8 +262,36 @@ def run(R, only=None):
         why = sql_oracle(c, o)
         if why:
             R.property_fails(None, "C19 " + why, {"kind": "sql-script", "case": c["steps"]})
+    # the CSV-import parse path: the same strings as INSERT literals and as quoted CSV fields must give equal values
+    csv_n = 0
+    csv_dir = os.path.join(CACHE, "csv19")
+    os.makedirs(csv_dir, exist_ok=True)
+    csv_cases = []
+    for i in range(4 if R.tier == "quick" else 40):
+        pool = [" lead", "trail ", "  both  ", " ", "in ner", "\ttab", "tab\t", "x", "a,b", 'q"q', "é ", " 1", "1 ", "0012"]
+        vals = R.rng.sample(pool, R.rng.randint(3, 8))
+        f = os.path.join(csv_dir, f"s{i}.csv")
+        with open(f, "w", encoding="utf-8") as fh:
+            for v in vals:
+                fh.write('"' + v.replace('"', '""') + '"\n')
+        lits = ", ".join("('" + v.replace("'", "''") + "')" for v in vals)
+        csv_cases.append({"engine": R.rng.choice(["mem", "disk"]), "vals": vals, "steps": [
+            {"sql": "create table s(v varchar)"}, {"sql": "create table s2(v varchar)"}, {"sql": f"insert into s values {lits}"},
+            {"sql": f"copy s2 from '{f}'"}, {"sql": "select v from s"}, {"sql": "select v from s2"}]})
+    co = run_harness("sql", [{"engine": c["engine"], "steps": c["steps"]} for c in csv_cases], jobs=8)
+    for c, o in zip(csv_cases, co):
+        rep = {"kind": "sql-script", "case": c["steps"], "file_lines": ['"' + v.replace('"', '""') + '"' for v in c["vals"]]}
+        if not isinstance(o, list) or len(o) < 6 or any("ok" not in x for x in o):
+            R.property_fails(None, f"C19 CSV import of quoted strings failed: {json.dumps(o)[-200:]}", rep)
+            continue
+        csv_n += 1
+        a = sorted(json.dumps(r) for r in o[4]["ok"][0]["rows"])
+        b = sorted(json.dumps(r) for r in o[5]["ok"][0]["rows"])
+        if a != b:
+            d = [(x, y) for x, y in zip(a, b) if x != y][:2]
+            R.property_fails(None, f"C19 the same strings parsed as INSERT literals and as CSV fields differ: {d}", rep)
     R.coverage.update({
-        "evaluations": len(cases) + len(sc), "distinct_nontrivial": len(nontriv),
+        "evaluations": len(cases) + len(sc) + csv_n, "distinct_nontrivial": len(nontriv),
         "rule": "lists of 2-8 values of one type (all 11 scalar types; boundary values, -0.0, NaNs of both signs and payloads, negative "
                 "intervals, empty strings / blobs, duplicates, NULL) with every pair compared, equated and hashed, each value printed and "
                 "parsed back; SQL tables of such values queried with <, =, ORDER BY, GROUP BY, JOIN, MIN/MAX; non-trivial = >= 3 distinct values",
